@@ -1,6 +1,7 @@
 """C10 — authoritative answers (RFC 1034 4.3.2): control skeleton only - delegation walk before data lookup, CNAME chase bounded
 and loop-checked, NameExists/NXDOMAIN/REFUSED decision, AA/SOA/NSEC attachment, referral classification, wildcard climb."""
 import re
+import helpers
 from api import shorten
 
 EXPLANATION = (
@@ -174,3 +175,6 @@ def run(cx):
                      sample={'fn': 'find_cover', 'fallback': fb[:120], 'holds': bool(m2)})
             if m2 and m2.group('key2'):
                 cx.check('C10.G5', closure_ret(m2.group('key2')) == 'RecordSet::name(arg2)', P + '{closure@or_else#0}', 'ret', 'fallback-greatest-by-owner-name', str(closure_ret(m2.group('key2'))))
+
+    # ---------------------------------------------------------------- H helper semantics the guards above rely on (rules/helpers.py)
+    helpers.check(cx, 'C10.H', ['LowerName::zone_of', 'LowerName::base_name', 'LowerName::is_wildcard', 'LowerName::into_wildcard', 'LowerName::is_root', 'RecordTypeSet::contains'])
